@@ -14,10 +14,12 @@ pub enum Status {
     WrongName,
     Unbalanced,
     NotUtf8,
+    /// the body uses the export of a library it does not import (an unbound symbol, whatever the importer has bound)
+    UsesUnimported,
 }
 
-pub const FILE_STATUSES: [Status; 6] = [Status::Healthy, Status::Missing, Status::BodyFault, Status::WrongName, Status::Unbalanced, Status::NotUtf8];
-pub const SOURCE_STATUSES: [Status; 3] = [Status::Healthy, Status::Missing, Status::BodyFault];
+pub const FILE_STATUSES: [Status; 7] = [Status::Healthy, Status::Missing, Status::BodyFault, Status::WrongName, Status::Unbalanced, Status::NotUtf8, Status::UsesUnimported];
+pub const SOURCE_STATUSES: [Status; 4] = [Status::Healthy, Status::Missing, Status::BodyFault, Status::UsesUnimported];
 
 #[derive(Clone, Debug)]
 pub struct Graph {
@@ -29,17 +31,33 @@ pub struct Graph {
     pub multi_decl: bool,
 }
 
+/// the export of the lowest-numbered other library that library i does not import (v9 = bound nowhere)
+fn unimported_name(g: &Graph, i: usize) -> String {
+    match (0..g.n).find(|k| *k != i && !g.edges[i].contains(k)) {
+        Some(k) => format!("v{}", k),
+        None => "v9".to_string(),
+    }
+}
+
+fn body_text(g: &Graph, i: usize) -> String {
+    match g.status[i] {
+        Status::BodyFault => format!("(define v{} (no-such-procedure {}))", i, i),
+        Status::UsesUnimported => format!("(define v{} {})", i, unimported_name(g, i)),
+        _ => format!("(define v{} {})", i, 100 + i),
+    }
+}
+
 fn lib_text(g: &Graph, i: usize, name_override: Option<&str>) -> String {
     if g.multi_decl {
         // one import declaration per dependency (a library may have several import declarations)
         let decls: String = g.edges[i].iter().map(|j| format!(" (import (g n{}))", j)).collect();
         let name = name_override.map(|s| s.to_string()).unwrap_or(format!("(g n{})", i));
-        let body = if g.status[i] == Status::BodyFault { format!("(define v{} (no-such-procedure {}))", i, i) } else { format!("(define v{} {})", i, 100 + i) };
+        let body = body_text(g, i);
         return format!("(define-library {}{} (export v{}) (begin {}))\n", name, decls, i, body);
     }
     let imports: String = g.edges[i].iter().map(|j| format!(" (g n{})", j)).collect();
     let name = name_override.map(|s| s.to_string()).unwrap_or(format!("(g n{})", i));
-    let body = if g.status[i] == Status::BodyFault { format!("(define v{} (no-such-procedure {}))", i, i) } else { format!("(define v{} {})", i, 100 + i) };
+    let body = body_text(g, i);
     let imp = if imports.is_empty() { String::new() } else { format!(" (import{})", imports) };
     format!("(define-library {}{} (export v{}) (begin {}))\n", name, imp, i, body)
 }
@@ -47,7 +65,7 @@ fn lib_text(g: &Graph, i: usize, name_override: Option<&str>) -> String {
 fn file_bytes(g: &Graph, i: usize) -> Option<Vec<u8>> {
     match g.status[i] {
         Status::Missing => None,
-        Status::Healthy | Status::BodyFault => Some(lib_text(g, i, None).into_bytes()),
+        Status::Healthy | Status::BodyFault | Status::UsesUnimported => Some(lib_text(g, i, None).into_bytes()),
         Status::WrongName => Some(lib_text(g, i, Some("(g other)")).into_bytes()),
         Status::Unbalanced => {
             let t = lib_text(g, i, None);
@@ -63,7 +81,7 @@ fn file_bytes(g: &Graph, i: usize) -> Option<Vec<u8>> {
 }
 
 fn traversable(s: Status) -> bool {
-    matches!(s, Status::Healthy | Status::BodyFault)
+    matches!(s, Status::Healthy | Status::BodyFault | Status::UsesUnimported)
 }
 
 /// error classes that the graph makes acceptable for an import of `root` (empty = must succeed)
@@ -88,7 +106,7 @@ pub fn acceptable(g: &Graph, root: usize) -> Vec<&'static str> {
             let c = match g.status[i] {
                 Status::Healthy => continue,
                 Status::Missing | Status::WrongName => "Logic::LibraryNotFound",
-                Status::BodyFault => "Logic::UnboundedSymbol",
+                Status::BodyFault | Status::UsesUnimported => "Logic::UnboundedSymbol",
                 Status::Unbalanced => "Syntax",
                 Status::NotUtf8 => "IO",
             };
@@ -355,6 +373,37 @@ fn location_check(ctx: &Ctx) {
             reps.push(rep);
         }
     }
+    // two program files in different directories run on one interpreter: each finds the libraries next to itself
+    let second_dir = base.join("second");
+    std::fs::create_dir_all(second_dir.join("g")).unwrap();
+    std::fs::write(prog_dir.join("g/n3.sld"), "(define-library (g n3) (export v3) (begin (define v3 103)))\n").unwrap();
+    std::fs::write(second_dir.join("g/n2.sld"), "(define-library (g n2) (export v2) (begin (define v2 102)))\n").unwrap();
+    std::fs::write(prog_dir.join("imports-only.scm"), "(import (g n0))\n").unwrap();
+    std::fs::write(prog_dir.join("failing-import.scm"), "(import (g nowhere))\n").unwrap();
+    std::fs::write(second_dir.join("main2.scm"), "(import (g n2))\nv2\n").unwrap();
+    std::fs::write(second_dir.join("only-in-first.scm"), "(import (g n3))\nv3\n").unwrap();
+    for first in ["imports-only.scm", "failing-import.scm"] {
+        for (prog, expect) in [("main2.scm", Some(102)), ("only-in-first.scm", None)] {
+            let (p1, p2) = (prog_dir.join(first), second_dir.join(prog));
+            let mut rep = Report::new(format!("location: one interpreter, eval_file({}) then eval_file({})", p1.display(), p2.display()));
+            rep.nontrivial = true;
+            let o = sut::in_thread(move || {
+                let mut s = Session::bare().unwrap();
+                let _ = s.eval_file(&p1);
+                s.eval_file(&p2)
+            });
+            rep.note = o.show();
+            match (&o, expect) {
+                (crate::sut::Outcome::Value(v), Some(x)) if v.equiv(&crate::sut::SVal::int(x)) => {}
+                (crate::sut::Outcome::Error(e), None) if e.tag == "Logic::LibraryNotFound" => {}
+                _ => rep.fail(
+                    "library-located-relative-to-an-earlier-program",
+                    format!("expected {}, got {}", if expect.is_some() { "102 from the second program's own directory" } else { "library not found" }, o.show()),
+                ),
+            }
+            reps.push(rep);
+        }
+    }
     if let Some(o) = old {
         let _ = std::env::set_current_dir(o);
     }
@@ -368,12 +417,14 @@ fn location_check(ctx: &Ctx) {
 pub fn run(ctx: &Ctx) {
     ctx.set_rule(
         "every directed graph (self-loops allowed) on 1-2 libraries (thorough: 3, strided) x every assignment of node \
-         status (files: healthy / missing / body faults at load / file defines another name / unbalanced / not UTF-8; \
-         registered sources: healthy / missing / body fault) x every history of 1-3 import attempts on one interpreter. \
+         status (files: healthy / missing / body faults at load / file defines another name / unbalanced / not UTF-8 / \
+         body uses the export of a library it does not import; registered sources: healthy / missing / body fault / uses \
+         unimported) x every history of 1-3 import attempts on one interpreter. \
          Oracle computed from the graph alone: success iff everything reachable is healthy and no cycle is reachable, a \
          cyclic-import error only if a cycle is reachable, a fault's own error class only if that faulty library is \
          reachable; every attempt equals the same import on a fresh interpreter; every attempt terminates (30 s watchdog); \
-         libraries are located relative to the program directory (eval_file from another working directory with decoys). \
+         libraries are located relative to the program directory (eval_file from another working directory with decoys; two program files in different directories run on \
+         one interpreter). \
          Non-trivial = >= 2 libraries with a shared dependency or a cycle, or a history whose first attempt fails.",
     );
     location_check(ctx);
